@@ -58,6 +58,8 @@ CONSTANTS
   NestThen,            \* BOOLEAN: hooks may finish in the same poll in which a nested operation completed
   AvoidCycles,         \* BOOLEAN: hooks never issue an ask that would close a cycle (cycle-free programs)
   MaxProbes,           \* bound on pure observations (is_alive / identity), which do not change state
+  LazyStart,           \* BOOLEAN: clients may create the future of an operation and poll it for the first time later (command
+                       \* `create`): nothing, not even the timer of a *_with_timeout call, may start before the first poll
   ArmRun               \* BOOLEAN: on_run invocations may be scripted to return at their very first poll (like the default on_run)
 
 Actors  == {ActorSeq[i] : i \in DOMAIN ActorSeq}
@@ -85,7 +87,8 @@ NoActor == [sp |-> FALSE, pc |-> "None", cap |-> 0, permits |-> 0, mbox |-> <<>>
             runNow |-> ""]      \* outcome with which the next on_run invocation returns at its first poll ("" = it parks)
 
 NoOpRec == [own |-> "", kind |-> "", h |-> 0, a |-> "", m |-> 0, dl |-> -1, ph |-> "none",
-            res |-> "", val |-> 0, rep |-> "none", rv |-> 0, det |-> FALSE]
+            res |-> "", val |-> 0, rep |-> "none", rv |-> 0, det |-> FALSE,
+            lz |-> -1]          \* >= 0: the future exists but has not been polled yet; its timeout (0 = none) is armed at the first poll
 
 NoHandle == [a |-> "", k |-> "none", vk |-> "ref"]
 
@@ -275,12 +278,23 @@ InnerReady(s, o) ==
   \/ op.ph = "reply" /\ op.rep \in {"val","closed"}
   \/ op.ph = "join" /\ s.T[op.m] \in TaskOuts
 
-Expired(s, o) == IsTimed(s, o) /\ s.O[o].ph \in {"new","wait","granted","reply"} /\ s.now >= s.O[o].dl
+Expired(s, o) == IsTimed(s, o) /\ s.O[o].ph \in {"new","wait","granted","reply"} /\ s.O[o].dl >= 0 /\ s.now >= s.O[o].dl
 
-Pollable(s, o) == s.O[o].ph \in {"wait","granted","reply","join"} /\ (InnerReady(s, o) \/ Expired(s, o))
+Unpolled(s, o) == s.O[o].ph = "new" /\ s.O[o].lz >= 0
+
+Pollable(s, o) == \/ Unpolled(s, o)
+                  \/ s.O[o].ph \in {"wait","granted","reply","join"} /\ (InnerReady(s, o) \/ Expired(s, o))
 
 \* tokio::time::timeout polls the inner future first and the deadline second
+RECURSIVE PollOp(_, _)
 PollOp(s, o) ==
+  IF Unpolled(s, o)
+    THEN \* the very first poll of a future created earlier: only now does anything happen; the timeout starts counting here
+         LET op == s.O[o]
+             s1 == SetO(s, o, [dl |-> IF op.kind \in TimedKinds THEN s.now + op.lz ELSE -1, lz |-> -1])
+             r  == PollOp(s1, o)
+         IN  R(r.s, << [e |-> "OpArm", op |-> o, now |-> s.now] >> \o r.evs)
+  ELSE
   LET op == s.O[o]
       r1 == IF op.ph \in {"new","wait","granted"} /\ InnerReady(s, o) THEN SendPoll(s, o)
             ELSE IF op.ph = "reply" /\ InnerReady(s, o) THEN ReplyPoll(s, o)
@@ -308,13 +322,13 @@ NewOp(s, own, kind, h, d) ==
       rec == [own |-> own, kind |-> kind, h |-> h, a |-> s.H[h].a,
               m |-> IF needM THEN s.nextM ELSE 0,
               dl |-> IF kind \in TimedKinds THEN s.now + d ELSE -1,
-              ph |-> "new", res |-> "", val |-> 0, rep |-> "none", rv |-> 0, det |-> FALSE]
+              ph |-> "new", res |-> "", val |-> 0, rep |-> "none", rv |-> 0, det |-> FALSE, lz |-> -1]
   IN  [s EXCEPT !.O[o] = rec, !.nextOp = @ + 1, !.nextM = IF needM THEN @ + 1 ELSE @]
 
 OpStartEv(s, o) ==
   LET op == s.O[o] IN
   [e |-> "OpStart", op |-> o, own |-> op.own, kind |-> op.kind, h |-> op.h, a |-> op.a,
-   m |-> op.m, d |-> IF op.dl < 0 THEN 0 ELSE op.dl - s.now, now |-> s.now]
+   m |-> op.m, d |-> IF op.lz >= 0 THEN op.lz ELSE IF op.dl < 0 THEN 0 ELSE op.dl - s.now, now |-> s.now]
 
 \* is the hook of actor `own` that is issuing an ask known to the deadlock detection (CURRENT_ACTOR scope)?
 Scoped(s, own) == own \in Actors /\ (ScopedCleanupStop \/ ~(s.A[own].pc = "Stop" /\ s.A[own].runErr))
@@ -435,7 +449,7 @@ ExitHook(s, a, dir) ==
        ELSE PanicOut(s, a, "start", 0)
   ELSE IF A.pc = "Handler" THEN
        LET o == A.cur  m == s.O[o].m  v == ReplyVal(m, A.nh) IN
-       IF dir \in {"ok", "slow"} THEN
+       IF dir \in {"ok", "slow", "veryslow"} THEN
             LET s1 == IF IsAsk(s, o)
                         THEN (IF s.O[o].rep = "open"
                                 THEN LET t == SetO(s, o, [rep |-> "val", rv |-> v])
@@ -524,6 +538,12 @@ CmdEnabled(s, cmd) ==
                              /\ (cmd.kind \in MsgKinds => s.nextM <= MaxMsg)
                              /\ (cmd.kind \in TimedKinds => cmd.d \in Timeouts /\ s.now + cmd.d <= MaxTime)
                              /\ (cmd.kind \notin TimedKinds => cmd.d = 0)
+       [] cmd.c = "create" -> /\ LazyStart /\ s.C[cmd.cl] = 0 /\ s.H[cmd.h].k = "s" /\ s.nextOp <= MaxOps
+                              /\ ClientIdx(cmd.cl) <= s.used + 1
+                              /\ cmd.kind \in OpKinds \cap MsgKinds /\ cmd.kind \in KindsOf(s.H[cmd.h].vk)
+                              /\ s.nextM <= MaxMsg
+                              /\ (cmd.kind \in TimedKinds => cmd.d \in Timeouts /\ s.now + cmd.d <= MaxTime)
+                              /\ (cmd.kind \notin TimedKinds => cmd.d = 0)
        [] cmd.c = "poll"  -> s.C[cmd.cl] # 0 /\ Pollable(s, s.C[cmd.cl])
        [] cmd.c = "burst" ->
             LET A == s.A[cmd.a] IN
@@ -548,10 +568,10 @@ CmdEnabled(s, cmd) ==
                   /\ (A.pc = "Run" /\ cmd.then = "true" => A.inst < MaxRun)
        [] cmd.c = "advance" -> /\ cmd.d >= 1 /\ s.now + cmd.d <= MaxTime
                                \* a client collects every result that is ready before time moves on
-                               /\ \A c \in Clients : s.C[c] = 0 \/ ~Pollable(s, s.C[c])
-                               \* only useful when some deadline lies ahead
-                               /\ \E o \in OpIds : s.O[o].ph \in {"wait","granted","reply"}
-                                                   /\ s.O[o].dl > s.now
+                               /\ \A c \in Clients : s.C[c] = 0 \/ ~Pollable(s, s.C[c]) \/ Unpolled(s, s.C[c])
+                               \* only useful when some deadline lies ahead, or a future waits for its first poll
+                               /\ \E o \in OpIds : \/ s.O[o].ph \in {"wait","granted","reply"} /\ s.O[o].dl > s.now
+                                                   \/ Unpolled(s, o) /\ s.O[o].lz > 0 /\ s.now + cmd.d + s.O[o].lz <= MaxTime
        [] cmd.c = "clone" -> "clone" \in HandleOps /\ s.H[cmd.h].k \in {"s","w"} /\ s.nextH <= MaxH
        [] cmd.c = "drop"  -> /\ "drop" \in HandleOps /\ s.H[cmd.h].k \in {"s","w"}
                              /\ ~\E o \in OpIds : s.O[o].h = cmd.h /\ s.O[o].ph \in {"new","wait","granted","reply","join"}
@@ -589,6 +609,13 @@ DoRaw(s, cmd) ==
              o  == s.nextOp
          IN  FirstPoll([s1 EXCEPT !.C[cmd.cl] = o,
                                   !.used = IF ClientIdx(cmd.cl) > @ THEN ClientIdx(cmd.cl) ELSE @], o)
+    [] cmd.c = "create" ->
+         \* the future is built (async fn: nothing runs yet) and held by the client
+         LET s1 == NewOp(s, cmd.cl, cmd.kind, cmd.h, 0)
+             o  == s.nextOp
+             s2 == SetO([s1 EXCEPT !.C[cmd.cl] = o,
+                                   !.used = IF ClientIdx(cmd.cl) > @ THEN ClientIdx(cmd.cl) ELSE @], o, [dl |-> -1, lz |-> cmd.d])
+         IN  R(s2, << [lazy |-> TRUE] @@ OpStartEv(s2, o) >>)
     [] cmd.c = "poll"  -> PollOp(s, s.C[cmd.cl])
     [] cmd.c = "burst" ->
          LET a == cmd.a  A == s.A[a] IN
@@ -689,6 +716,8 @@ Do(s, cmd) ==
 SpawnCmds   == {[c |-> "spawn", a |-> a, cap |-> k] : a \in Actors, k \in CapChoices}
 StartCmds   == {[c |-> "start", cl |-> cl, kind |-> k, h |-> h, d |-> d] :
                    cl \in Clients, k \in OpKinds, h \in HIds, d \in Timeouts \cup {0}}
+CreateCmds  == {[c |-> "create", cl |-> cl, kind |-> k, h |-> h, d |-> d] :
+                   cl \in Clients, k \in OpKinds \cap MsgKinds, h \in HIds, d \in Timeouts \cup {0}}
 PollCmds    == {[c |-> "poll", cl |-> cl] : cl \in Clients}
 BurstCmds   == {[c |-> "burst", a |-> a, dir |-> d] :
                    a \in Actors, d \in {"none"} \cup StartOuts \cup HandlerOuts \cup RunOuts \cup StopOuts}
